@@ -1431,3 +1431,198 @@ func TestVerifC18Concurrent(t *testing.T) {
 		rec.Distinct("configs", cfg.String())
 	}
 }
+
+// ---- phase 4: two OVERLAPPING lookups for one address whose probes disagree ----------------------------------
+
+// Two lookups for the same address are gated inside the scripted probe so that both have missed before either
+// stores; one probe answers not-live, the other live (the host came up / went down in between); the probes
+// are released one after the other (both orders), each lookup returning - and therefore storing - before the
+// next is released.  The address then sits in both caches.  Follow-up lookups (sequential, at harness ages
+// 0, 20m, 40m, ...) are judged by the usual rules (a cached answer needs a measurement of that verdict younger than
+// its lifetime) and, when the LIVE measurement completed no earlier than the non-live one, by:
+//
+//	while that live verdict is in force (harness age < live lifetime) and the live cache still holds the entry,
+//	a lookup must not be answered as cached NOT-live   (sig hit:nonlive-over-later-live)
+//
+// The mirror case (the non-live measurement completed last) carries no such demand: the code prefers the live
+// verdict by design (a live phantom must not be used), and both verdicts were measured within their lifetimes.
+func TestVerifC18Overlap(t *testing.T) {
+	rec := kit.NewRec("C18", "overlap")
+	defer rec.Close()
+	reps := kit.Tier(5, 50)
+	type variant struct {
+		firstLive   bool // verdict the probe of lookup #1 (the one that enters the probe first) returns; lookup #2 gets the opposite
+		releaseLive bool // which probe is released (and whose lookup completes) first
+	}
+	var cfgs []verifC18Cfg
+	for _, p := range [][2]string{{verifC18Short, verifC18Long}, {verifC18Long, verifC18Short}, {verifC18Short, verifC18Short}, {"2h", "90s"}} {
+		for _, c := range []int{0, 4} {
+			cfgs = append(cfgs, verifC18Cfg{DurLive: p[0], CapLive: c, DurNon: p[1], CapNon: c})
+		}
+	}
+	written := map[string]int{}
+	for rep := 0; rep < reps; rep++ {
+		for ci, cfg := range cfgs {
+			for vi, va := range []variant{{false, false}, {false, true}, {true, false}, {true, true}} {
+				for _, withClear := range []bool{false, true} {
+					ai := (rep + ci + vi) % 8
+					addr := verifC18Addrs[ai]
+					desc := map[string]interface{}{"phase": "overlap", "config": cfg, "address": addr, "lookup1_probe_returns_live": va.firstLive,
+						"probe_released_first_returns_live": va.releaseLive, "clear_expired_between_followups": withClear}
+					rec.Case(desc)
+					tester, err := New(&Config{CacheDuration: cfg.DurLive, CacheCapacity: cfg.CapLive, CacheDurationNonLive: cfg.DurNon, CacheCapacityNonLive: cfg.CapNon})
+					if err != nil {
+						t.Fatalf("infrastructure: %v", err)
+					}
+					type gate struct {
+						entered chan struct{}
+						release chan struct{}
+						live    bool
+					}
+					gates := map[string]*gate{} // by port
+					mk := func(port string, live bool) *gate {
+						g := &gate{entered: make(chan struct{}), release: make(chan struct{}), live: live}
+						gates[port] = g
+						return g
+					}
+					g1, g2 := mk("30001", va.firstLive), mk("30002", !va.firstLive)
+					gated := true
+					var seqLive bool // outcome of un-gated (follow-up) probes
+					var seqCalls int
+					probe := func(address string) (bool, error) {
+						if !gated {
+							seqCalls++
+							return seqLive, verifC18Outcomes[verifC18KindsOf[verifC18B2I(seqLive)][0]].err
+						}
+						_, p, _ := net.SplitHostPort(address)
+						g := gates[p]
+						close(g.entered)
+						<-g.release
+						return g.live, verifC18Outcomes[verifC18KindsOf[verifC18B2I(g.live)][0]].err
+					}
+					cached, err := verifC18Install(tester, probe)
+					if err != nil || cached == nil {
+						t.Fatalf("infrastructure: %v", err)
+					}
+					type res struct {
+						live bool
+						err  error
+					}
+					r1, r2 := make(chan res, 1), make(chan res, 1)
+					watchdog := time.After(60 * time.Second)
+					go func() { l, e := tester.PhantomIsLive(addr, 30001); r1 <- res{l, e} }()
+					stuck := false
+					select {
+					case <-g1.entered:
+					case <-watchdog:
+						stuck = true
+					}
+					if !stuck {
+						go func() { l, e := tester.PhantomIsLive(addr, 30002); r2 <- res{l, e} }()
+						select {
+						case <-g2.entered:
+						case <-watchdog:
+							stuck = true
+						}
+					}
+					if stuck {
+						// the second lookup never reached its probe while the first was inside its own (a tester that
+						// serialises lookups): the situation cannot arise there; nothing is concluded
+						rec.Inconclusive("overlapping lookups did not both reach the probe", desc)
+						select {
+						case <-g1.entered:
+							close(g1.release)
+						default:
+						}
+						continue
+					}
+					// both lookups have missed and sit inside their probes; release one, let its lookup return (it has stored), then the other
+					first, second, rf, rs := g1, g2, r1, r2
+					if g1.live != va.releaseLive {
+						first, second, rf, rs = g2, g1, r2, r1
+					}
+					close(first.release)
+					a := <-rf
+					close(second.release)
+					b := <-rs
+					report := func(sig, msg string, extra map[string]interface{}) {
+						written[sig]++
+						if written[sig] <= 5 {
+							d := map[string]interface{}{}
+							for k, v := range desc {
+								d[k] = v
+							}
+							for k, v := range extra {
+								d[k] = v
+							}
+							rec.Violation(sig, msg, d)
+						} else {
+							rec.Violation(sig, msg, nil)
+						}
+					}
+					if a.live != first.live || errors.Is(a.err, ErrCachedPhantom) {
+						report("miss:verdict-differs", fmt.Sprintf("overlapping lookup returned (%v, %v) but its probe returned %v", a.live, a.err, first.live), nil)
+					}
+					if b.live != second.live || errors.Is(b.err, ErrCachedPhantom) {
+						report("miss:verdict-differs", fmt.Sprintf("overlapping lookup returned (%v, %v) but its probe returned %v", b.live, b.err, second.live), nil)
+					}
+					liveLast := second.live // the live measurement completed no earlier than the non-live one
+					gated = false
+					life := [2]time.Duration{verifC18Life(cfg.DurNon), verifC18Life(cfg.DurLive)}
+					var age time.Duration
+					var trace []string
+					nh := 0
+				followups:
+					for step := 0; step < 8; step++ {
+						for q := 0; q < 2; q++ {
+							seqLive = (step+q)%2 == 0
+							seqCalls = 0
+							liveHeld := verifC18Entry(cached.ipCacheLive, addr) != nil
+							gotLive, err := tester.PhantomIsLive(addr, 443)
+							if !errors.Is(err, ErrCachedPhantom) {
+								trace = append(trace, fmt.Sprintf("age %v: lookup -> probed %s", age, verifC18VName[verifC18B2I(gotLive)]))
+								if seqCalls != 1 || gotLive != seqLive {
+									report("miss:verdict-differs", fmt.Sprintf("follow-up lookup returned (%v, %v) after %d probe calls answering %v", gotLive, err, seqCalls, seqLive), map[string]interface{}{"followups": trace})
+								}
+								break followups // a new measurement: the situation under observation is over
+							}
+							nh++
+							v := verifC18B2I(gotLive)
+							trace = append(trace, fmt.Sprintf("age %v: lookup -> CACHED %s", age, verifC18VName[v]))
+							switch {
+							case age >= life[v]:
+								report("hit:stale:"+verifC18VName[v], fmt.Sprintf("%s answered from the cache as %s although the probe that returned %s is %v old (configured lifetime %v)", addr, verifC18VName[v], verifC18VName[v], age, life[v]),
+									map[string]interface{}{"followups": trace})
+							case !gotLive && liveLast && age < life[1] && liveHeld:
+								report("hit:nonlive-over-later-live", fmt.Sprintf("%s answered from the cache as NOT live although a probe that completed after the not-live one measured it live %v ago (live lifetime %v) and the live cache holds that entry",
+									addr, age, life[1]), map[string]interface{}{"followups": trace})
+							}
+						}
+						if withClear {
+							cached.ClearExpiredCache()
+						}
+						age += verifC18Step
+						if err := verifC18Backdate(cached.ipCacheLive, verifC18Step); err != nil {
+							t.Fatalf("infrastructure: %v", err)
+						}
+						if err := verifC18Backdate(cached.ipCacheNonLive, verifC18Step); err != nil {
+							t.Fatalf("infrastructure: %v", err)
+						}
+					}
+					rec.Count("evaluations", 1)
+					rec.Count("cache_hits_judged", nh)
+					rec.Count("probes_judged", 3)
+					if liveLast {
+						rec.Count("overlaps_where_the_live_measurement_completed_last", 1)
+					}
+					if nh > 0 {
+						rec.Distinct("nontrivial", cfg.String(), va.firstLive, va.releaseLive, withClear, ai)
+					}
+					if rep == 0 && ci == 0 && !withClear {
+						rec.Sample(map[string]interface{}{"case": desc, "followups": trace})
+					}
+				}
+			}
+		}
+	}
+}
